@@ -352,9 +352,15 @@ func crashTableState(fs *crashFS, dir string) crashTableAbs {
 			t.Present = append(t.Present, f)
 		}
 	}
-	// the metadata is written last and in one piece: a table is complete once it is there
+	// the metadata is written last and in one piece: a table is complete once it is there - provided index and data
+	// were complete before (equally many whole records, nothing torn)
 	if t.State == "complete" {
 		t.Present = nil
+		ix, da := crashScanRio(fs.nodes[dir+"/index.rio"].data), crashScanRio(fs.nodes[dir+"/data.rio"].data)
+		if !ix.Header || !da.Header || ix.Torn || da.Torn || ix.Records != da.Records {
+			t.State = "inconsistent"
+			t.Present = []string{fmt.Sprintf("index=%d:r%d", ix.Size, ix.Records), fmt.Sprintf("data=%d:r%d", da.Size, da.Records), "meta.pb.bin"}
+		}
 	}
 	return t
 }
@@ -401,6 +407,9 @@ func crashAbstract(fs *crashFS, bare bool) *crashAbs {
 func (t crashTableAbs) str() string {
 	if t.State == "complete" {
 		return "complete"
+	}
+	if t.State == "inconsistent" {
+		return "inconsistent{" + strings.Join(t.Present, ",") + "}"
 	}
 	return "partial{" + strings.Join(t.Present, ",") + "}"
 }
@@ -497,6 +506,11 @@ func (a *crashAbs) Class() string {
 	for _, c := range a.Comps {
 		if c.Flagged {
 			return "compaction-flagged"
+		}
+	}
+	for _, t := range a.Tables {
+		if t.State == "inconsistent" {
+			return "table-metadata-without-all-records"
 		}
 	}
 	nPartial := 0
